@@ -138,7 +138,12 @@ pub fn run_case(line: &str) -> String {
             let h = rest.split_whitespace().next().unwrap_or(".");
             h.split(',')
                 .map(|x| {
-                    if let Some(y) = x.strip_prefix('T') {
+                    if let Some(y) = x.strip_prefix('B') {
+                        match erltf::decode_borrowed(&unhex(y)) {
+                            Ok(t) => format!("ok {}", term_str(&t.to_owned())),
+                            Err(e) => format!("err {}", dkind(&e.error)),
+                        }
+                    } else if let Some(y) = x.strip_prefix('T') {
                         match erltf::decoder::decode_with_trailing(&unhex(y)) {
                             Ok((t, r)) => format!("ok {} rest={}", term_str(&t), hex(r)),
                             Err(e) => format!("err {}", dkind(&e)),
@@ -236,9 +241,41 @@ pub fn run_case(line: &str) -> String {
                         Ok((c, p)) => format!("{} | {}", term_str(&c), p.map(|x| term_str(&x)).unwrap_or_else(|| "-".to_string())),
                         Err(e) => format!("err {}", dkind(&e)),
                     };
-                    format!("enc={} ; self={}", hex(&b), selfdec)
+                    // the thin wrappers must agree with the entry points they wrap
+                    let mut wrap = String::new();
+                    if terms.len() == 1 {
+                        match erltf::encoder::encode_with_dist_header(&terms[0]) {
+                            Ok(b1) => {
+                                // the set's iteration order may differ between two calls: compare what the bytes decode to
+                                let mut c1 = erltf::AtomCache::new();
+                                let d1 = erltf::decode_with_atom_cache(&b1, &mut c1).map(|(c, _)| term_str(&c)).unwrap_or_else(|e| format!("err {}", dkind(&e)));
+                                if b1.len() != b.len() || format!("{d1} | -") != selfdec {
+                                    wrap.push_str(" wrapper:encode_with_dist_header-differs");
+                                }
+                            }
+                            Err(_) => wrap.push_str(" wrapper:encode_with_dist_header-fails"),
+                        }
+                    }
+                    match erltf::decoder::decode_with_cache(&b) {
+                        Ok((c, rest)) => {
+                            let got = format!("{} | {}", term_str(&c), rest.map(|(x, _)| term_str(&x)).unwrap_or_else(|| "-".to_string()));
+                            if got != selfdec {
+                                wrap.push_str(" wrapper:decode_with_cache-differs");
+                            }
+                        }
+                        Err(_) => {
+                            if !selfdec.starts_with("err") {
+                                wrap.push_str(" wrapper:decode_with_cache-fails");
+                            }
+                        }
+                    }
+                    format!("enc={} ; self={}{}", hex(&b), selfdec, wrap)
                 }
             }
+        }
+        "hdrh" => {
+            // a history of header-writer calls on one thread (a refused message before accepted ones)
+            rest.split(" || ").map(|r| run_case(&format!("hdr {r}"))).collect::<Vec<_>>().join(" ;; ")
         }
         "hdrdec" => {
             // a history of messages decoded with one atom cache
